@@ -85,6 +85,7 @@ def history_fails(case):
     except Exception:
         return None
     last_push = None      # inputs of the last forward evaluation (what a pullback refers to)
+    held = {}             # input objects handed over before (reused, refilled in place, by later calls of the same kind)
     for step, h in enumerate(case['hist']):
         k = h['k']
         dt = h.get('dt', 'float')
@@ -102,6 +103,15 @@ def history_fails(case):
             with np.errstate(all='ignore'):
                 if k == 'push' or (k == 'pull' and last_push is None):
                     xin = UTPM(hx.copy()) if h['kind'] == 'ut' else hx[0, 0].copy()
+                    # the caller may hand over the very same object again, refilled in place with the new point
+                    key = 'push-' + h['kind']
+                    old_in = held.get(key)
+                    old_arr = old_in.data if isinstance(old_in, UTPM) else old_in
+                    new_arr = xin.data if isinstance(xin, UTPM) else xin
+                    if h.get('reuse', True) and old_arr is not None and old_arr.shape == new_arr.shape and old_arr.dtype == new_arr.dtype:
+                        old_arr[...] = new_arr
+                        xin = old_in
+                    held[key] = xin
                     cg.pushforward([xin])
                     got = c05.val(cg.dependentFunctionList[0].x)
                     want = c05.val(run_program(prog, [UTPM(hx.copy()) if h['kind'] == 'ut' else hx[0, 0].copy()]))
@@ -132,7 +142,13 @@ def history_fails(case):
                     want = np.array(fx2[0].xbar.data)
                     name = 'pullback'
                 elif k == 'function':
-                    got = np.asarray(cg.function([hpt.copy()])[0])
+                    pin = hpt.copy()
+                    old_arr = held.get('function')
+                    if h.get('reuse', True) and old_arr is not None and old_arr.shape == pin.shape and old_arr.dtype == pin.dtype:
+                        old_arr[...] = pin
+                        pin = old_arr
+                    held['function'] = pin
+                    got = np.asarray(cg.function([pin])[0])
                     want = np.asarray(run_program(prog, [hpt.copy()]))
                     last_push = None
                     name = 'function'
